@@ -21,6 +21,31 @@ Theorem C19_prefix_free : forall o x, il_is_empty (spilled o) = true -> fst (str
   spilled (io_push o x) = spilled o /\ strided (io_push o x) = snd (stride_push (strided o) x).
 Proof. exact io_push_strided. Qed.
 
+(** The rule for EVERY sequence pushed into a fresh IndexOptimized (no shape assumed): [stride_split] cuts the
+    sequence into the longest prefix the stride absorbs and the remainder; the heap bytes are exactly the
+    spill-list charge of the remainder — 4 per entry up to the first value that needs 64 bits, 8 per entry
+    from there on — and nothing for the prefix. *)
+From FC Require Import Index.StrideCost.
+Theorem C19_any_sequence_cost : forall l,
+  ic_used index_optimized (fold_left io_push l io_default) =
+  [4 * N.of_nat (length (fst (take_small (snd (stride_split SEmpty l)))));
+   8 * N.of_nat (length (snd (take_small (snd (stride_split SEmpty l)))))].
+Proof. exact io_cost_rule. Qed.
+
+(** ... where the prefix really is the stride-matching prefix: the sequence is prefix ++ remainder, the prefix
+    has the documented shape (empty, [0], or 0, s, 2s, ... followed by repeats of its last element), and it is
+    maximal: the first element of the remainder is one the stride refuses. *)
+Theorem C19_split_is_stride_prefix : forall l,
+  let st := fst (stride_split SEmpty l) in let rest := snd (stride_split SEmpty l) in
+  l = stride_abs st ++ rest /\ stride_shape (stride_abs st) /\
+  match rest with [] => True | x :: _ => fst (stride_push st x) = false end.
+Proof. exact io_cost_split. Qed.
+
+(** No heap at all exactly when the whole sequence was absorbed. *)
+Theorem C19_free_iff_absorbed : forall l,
+  ic_used index_optimized (fold_left io_push l io_default) = [0; 0] <-> snd (stride_split SEmpty l) = [].
+Proof. exact io_cost_zero_iff. Qed.
+
 (** Consequently a FlatStack with the optimised index container over a dense-index region
     (ConsecutiveIndexPairs over any region with dense pair indices) spends ZERO heap bytes on its own
     indices, for ANY number of copied items (below 2^64): the region hands out 0, 1, 2, ... (C12) and
